@@ -14,8 +14,8 @@ from . import common, tools
 
 ID = "C12"
 LEVEL = "exploration"
-BUDGET = {"quick": 480, "thorough": 9600}
-WALL_CAP = {"quick": 420, "thorough": 3300}
+BUDGET = {"quick": 3200, "thorough": 32000}
+WALL_CAP = {"quick": 600, "thorough": 5400}
 TOOLS = ["reader-select", "reader-iterate", "taste", "colander", "combine", "chef", "mandoline",
          "pestle", "whip", "chk2plt"]
 RULE = ("case = pooled entry point in {reader selections, level iteration, taste, colander, combine, chef, mandoline "
